@@ -68,7 +68,7 @@ def run(res, proof):
             if h is not None: strands.append(h)
     base_cx = [h for h in cx if type(iw.held[h]).__name__ == 'ComplexS']
     macros = []
-    for sub in [(0,), (1,), (0, 1), (1, 2), (0, 1, 2), (3, 4), (2, 5)]:
+    for sub in [(0,), (1,), (0, 1), (1, 2), (0, 1, 2), (3, 4), (2, 5), (0, 2), (0, 3), (1, 3)]:
         for cls in (0, 1, 3):
             # the same member set in every registry, each time named after another member (another representative)
             nm = iw.held[base_cx[sub[cls % len(sub)]]].name if cls else '-'
@@ -106,8 +106,8 @@ def run(res, proof):
                 res.violation('equal-not-equivalent:' + kind, desc, 'lt=%s gt=%s' % (lt, gt), 'equal objects are equivalent')
             res.nontriv((kind, id(x), id(y)))
         trip = list(itertools.product(objs, repeat=3))
-        if len(trip) > (4000 if quick else 60000):
-            trip = rng.sample(trip, 4000 if quick else 60000)
+        if len(trip) > (30000 if quick else 200000):
+            trip = rng.sample(trip, 30000 if quick else 200000)
         for x, y, z in trip:
             res.evaluations += 1
             if x <= y and y <= z and not x <= z:
@@ -128,14 +128,25 @@ def run(res, proof):
     attrs = {'dom': ['name', 'length', 'canonical_form'], 'cplx': ['name', 'canonical_form'], 'strand': ['name', 'canonical_form'],
              'macro': ['complexes', 'representative', 'name', 'canonical_form'],
              'rxn': ['reactants', 'products', 'rtype', 'name', 'canonical_form']}
+    # an untyped reaction (rtype None) takes part in the read-only checks only (types are strings in the ordered population)
+    untyped = add('mk.rxn\t0\t-\t-\th%d\th%d' % (base_cx[0], base_cx[1]))
     for kind, hs in groups.items():
-        for h in hs[:6]:
+        for h in hs[:6] + ([untyped] if kind == 'rxn' and untyped is not None else []):
             o = iw.held[h]
             for a in attrs[kind]:
                 res.evaluations += 1
                 before = snapshot(o, kind)
                 try:
-                    setattr(o, a, 'Z' if a in ('name', 'rtype') else 7 if a == 'length' else [])
+                    # rtype: every library type is tried as well (a plausible value must be refused like an implausible one)
+                    vals = (['Z'] + list(type(o).RTYPES)) if a == 'rtype' else ['Z'] if a == 'name' else [7] if a == 'length' else [[]]
+                    for v in vals[:-1]:
+                        try:
+                            setattr(o, a, v)
+                            res.violation('identity-assignable:%s.%s' % (kind, a), {'object': repr(o), 'attribute': a, 'value': repr(v)},
+                                          'no exception', 'raises and leaves the object unchanged')
+                        except Exception as e:
+                            e = None
+                    setattr(o, a, vals[-1])
                     raised = False
                 except Exception as e:
                     raised = True
